@@ -1339,6 +1339,13 @@ class Controller:
             )
             return None
 
+        if command.bd_addr in self.classic_connections:
+            # Already connected, or already being paged
+            self._send_hci_command_status(
+                hci.HCI_ErrorCode.CONNECTION_ALREADY_EXISTS_ERROR, command.op_code
+            )
+            return None
+
         if self.link.find_classic_controller(command.bd_addr) in (None, self):
             # Nobody answers the page: conclude the procedure with a page timeout
             self._send_hci_command_status(
